@@ -79,6 +79,16 @@ func main() {
 				ticks = insertTicks(f)
 				rep.Ticks += ticks
 			}
+			if strings.HasSuffix(p.PkgPath, "cluster/calcium") {
+				// yield points inside the goroutine bodies of calcium (function literals): after
+				// every call statement outside a mutex region. Only the race-detector check
+				// (C34) installs a hook for them; they let two goroutines of one operation stop
+				// between "returned from the pool / the store" and "write the shared variable",
+				// which the pool's own lock would otherwise always order.
+				y := insertCallYields(p, f)
+				ticks += y
+				rep.Yields += y
+			}
 			if strings.HasSuffix(p.PkgPath, "discovery/helium") {
 				// yield points: the service-discovery hub has no call into an external party
 				// between its channel operations, so the simulator could never order a
@@ -158,6 +168,108 @@ func insertTicks(f *ast.File) int {
 		case *ast.RangeStmt:
 			l.Body.List = append([]ast.Stmt{tick()}, l.Body.List...)
 			n++
+		}
+		return true
+	})
+	return n
+}
+
+// insertCallYields appends verifrt.DoTick() after call statements inside function literals.
+func insertCallYields(p *packages.Package, f *ast.File) int {
+	n := 0
+	isBuiltin := func(fun ast.Expr) bool {
+		if idn, ok := fun.(*ast.Ident); ok {
+			if _, ok := p.TypesInfo.Uses[idn].(*types.Builtin); ok {
+				return true
+			}
+			if tv, ok := p.TypesInfo.Types[fun]; ok && tv.IsType() {
+				return true // conversion
+			}
+		}
+		return false
+	}
+	methodName := func(c *ast.CallExpr) string {
+		if se, ok := c.Fun.(*ast.SelectorExpr); ok {
+			return se.Sel.Name
+		}
+		return ""
+	}
+	callOf := func(st ast.Stmt) *ast.CallExpr {
+		switch s := st.(type) {
+		case *ast.ExprStmt:
+			if c, ok := s.X.(*ast.CallExpr); ok {
+				return c
+			}
+		case *ast.AssignStmt:
+			for _, r := range s.Rhs {
+				if c, ok := r.(*ast.CallExpr); ok {
+					return c
+				}
+			}
+		}
+		return nil
+	}
+	var doBlock func(b *ast.BlockStmt, inLock bool)
+	var doStmt func(st ast.Stmt, inLock bool)
+	doStmt = func(st ast.Stmt, inLock bool) {
+		switch s := st.(type) {
+		case *ast.BlockStmt:
+			doBlock(s, inLock)
+		case *ast.IfStmt:
+			doBlock(s.Body, inLock)
+			if s.Else != nil {
+				doStmt(s.Else, inLock)
+			}
+		case *ast.ForStmt:
+			doBlock(s.Body, inLock)
+		case *ast.RangeStmt:
+			doBlock(s.Body, inLock)
+		case *ast.SwitchStmt:
+			for _, cc := range s.Body.List {
+				if c, ok := cc.(*ast.CaseClause); ok {
+					b := &ast.BlockStmt{List: c.Body}
+					doBlock(b, inLock)
+					c.Body = b.List
+				}
+			}
+		}
+	}
+	doBlock = func(b *ast.BlockStmt, inLock bool) {
+		if b == nil {
+			return
+		}
+		var out []ast.Stmt
+		for _, st := range b.List {
+			doStmt(st, inLock)
+			out = append(out, st)
+			if d, ok := st.(*ast.DeferStmt); ok {
+				if m := methodName(d.Call); m == "Unlock" || m == "RUnlock" {
+					inLock = true // held until the function returns
+				}
+				continue
+			}
+			c := callOf(st)
+			if c == nil || isBuiltin(c.Fun) {
+				continue
+			}
+			switch methodName(c) {
+			case "Lock", "RLock":
+				inLock = true
+				continue
+			case "Unlock", "RUnlock":
+				inLock = false
+			}
+			if inLock {
+				continue
+			}
+			out = append(out, &ast.ExprStmt{X: &ast.CallExpr{Fun: sel("verifrt", "DoTick")}})
+			n++
+		}
+		b.List = out
+	}
+	ast.Inspect(f, func(nd ast.Node) bool {
+		if fl, ok := nd.(*ast.FuncLit); ok {
+			doBlock(fl.Body, false) // (doBlock does not descend into nested literals; Inspect does)
 		}
 		return true
 	})
